@@ -1,6 +1,7 @@
 package worlds
 
 import (
+	"math"
 	"fmt"
 
 	"github.com/bradenaw/juniper/parallel"
@@ -14,7 +15,7 @@ import (
 
 func init() {
 	Register(&World{Name: "pardo", Episodes: true, Props: []string{"C13"}, Concurrent: true, Timed: true, MaxSteps: 6000, Run: pardoWorld})
-	ExpectedProbes["pardo"] = []string{"sequential-fast-path", "parallel-path", "failure-in-last-index", "two-failures", "caller-cancel-midflight", "waiter-released-by-failure", "parallelism-from-gomaxprocs", "n-zero", "caller-context-without-done-channel", "caller-context-with-cause"}
+	ExpectedProbes["pardo"] = []string{"sequential-fast-path", "parallel-path", "failure-in-last-index", "two-failures", "caller-cancel-midflight", "waiter-released-by-failure", "parallelism-from-gomaxprocs", "n-zero", "caller-context-without-done-channel", "caller-context-with-cause", "n-huge-every-call-fails"}
 }
 
 type pardoCall struct {
@@ -27,7 +28,71 @@ type pardoCall struct {
 	sawDone          bool
 }
 
+// pardoHugeN: DoContext over an index range nobody could ever work through - n at or near the top
+// of the int range - where every call fails. The unchanged library hands out index 0 and up,
+// reports the failure and stops; arithmetic on n that wraps around shows as no call at all, a nil
+// return, or indexes outside [0, n).
+func pardoHugeN(r *R) {
+	r.Probe("n-huge-every-call-fails")
+	n := []int{math.MaxInt, math.MaxInt - 1, 1 << 40, math.MaxInt32 + 1}[r.Choose(4, "huge-n")]
+	parallelism := []int{2, 3, -1, 1, 20}[r.Choose(5, "parallelism")]
+	eff := parallelism
+	if eff <= 0 {
+		eff = r.Cfg.GOMAXPROCS
+	}
+	root := RootCtx(r)
+	e := NewErr("fE")
+	calls, running, maxRunning := 0, 0, 0
+	seen := map[int]bool{}
+	returned := false
+	var got error
+	sim.GoNamed("caller", func() {
+		got = parallel.DoContext(root.C, parallelism, n, func(ctx context.Context, i int) error {
+			calls++
+			running++
+			if running > maxRunning {
+				maxRunning = running
+			}
+			if i < 0 || i >= n || seen[i] {
+				r.Violate("C13", "huge-n/bad-index", "f was called with index %d (n=%d, seen before: %v)", i, n, seen[i])
+			}
+			seen[i] = true
+			if returned {
+				r.Violate("C13", "huge-n/call-after-return", "f(%d) started after DoContext had returned", i)
+			}
+			sim.Yield("f")
+			r.Fault("cb_error")
+			running--
+			if calls > 4*eff+8 {
+				panic(sim.Killed) // a loop that does not stop on failure: ended here, judged below
+			}
+			return e
+		})
+		returned = true
+	})
+	sim.WaitStuck("pardo-huge-n")
+	if r.Failed() {
+		return
+	}
+	switch {
+	case !returned:
+		r.Violate("C13", "huge-n/never-returns", "DoContext(n=%d, parallelism=%d) has not returned although every call fails (%d calls so far)", n, parallelism, calls)
+	case calls == 0:
+		r.Violate("C13", "huge-n/no-call", "DoContext(n=%d, parallelism=%d) returned %v without calling f at all", n, parallelism, got)
+	case got != e:
+		r.Violate("C13", "huge-n/wrong-error", "every call of f returned %v, DoContext(n=%d, parallelism=%d) returned %v", e, n, parallelism, got)
+	case maxRunning > eff:
+		r.Violate("C13", "huge-n/too-many-at-once", "%d calls ran at once, the parallelism is %d", maxRunning, eff)
+	case calls > 2*eff:
+		r.Violate("C13", "huge-n/calls-after-failure", "%d calls were made although the first one failed (parallelism %d)", calls, eff)
+	}
+}
+
 func pardoWorld(r *R) {
+	if r.Choose(16, "huge-n-scenario") == 15 {
+		pardoHugeN(r)
+		return
+	}
 	variant := r.Choose(4, "variant") // 0 DoContext, 1 Do, 2 MapContext, 3 Map
 	withCtx := variant == 0 || variant == 2
 	n := []int{2, 0, 1, 5, 12, 3}[r.Choose(6, "n")]
